@@ -43,7 +43,7 @@ REQUIRED = [
     # deepening round 3: key export command crypto/cmd fs2vault (NutsProofs.Props.C03Exp)
     "fact_export_loop_shape", "fact_export_error_wording", "fact_fs2vault_target_wrapped", "wrappedSave_gated", "wrappedPut_gated",
     "export_lists_only_listed_names", "export_target_entries_valid_and_faithful", "export_output_independent_of_key_material",
-    "fs2vault_new_entries_confined",
+    "fs2vault_new_entries_confined", "export_target_keeps_names", "export_success_means_all_listed_present", "wrappedSave_dup", "wrappedPut_dup",
     "fact_pem_switch_tables", "pem_signer_only_from_private_block", "pem_public_decoder_refuses_private_blocks", "pem_other_block_is_nil_without_error",
     "fact_external_name_to_path", "external_target_confined", "external_valid_name_not_dot_segment", "fs_list_roundtrip", "fs_listed_name_shape", "fs_list_separator_not_checked",
 ]
@@ -713,6 +713,10 @@ def run(ctx):
             return kid_rx.fullmatch(nb) is not None and nb not in (b".", b"..")
         for i, line in enumerate(impl):
             op = json.loads(ops[i]) if i < len(ops) and ops[i] else {}
+            if line.endswith(" KEY-MATERIAL-IN-OUTPUT"):
+                exp_bad += 1
+                found_violation |= ctx.violation("C03:exp:key-material-in-command-output-or-error", line[:300], "exp-export.jsonl", ops[i])
+                continue
             mx = re.fullmatch(r'(fsexport|fs2vault) keys=\[([0-9a-f,]*)\] err=(-|".*") (target|puts)=\[([0-9A-Za-z:?,]*)\]', line)
             if not mx:
                 found_violation |= ctx.violation("C03:exp:panic-or-garbage", line[:200], "exp-garbage.jsonl", ops[i])
@@ -743,6 +747,8 @@ def run(ctx):
                         why = "key-stored-under-another-files-name"
                 if sorted(exported) != sorted(nb for nb, _ in new):
                     why = why or "printed-names-differ-from-stored-names"
+                if mx.group(3) == "-" and any(n not in [unhex(h) for h, _ in ents] for n in listed):
+                    why = why or "command-reported-success-but-a-listed-key-is-not-in-the-target"
             else:
                 want_pfx = b"/v1/kv/nuts-private-keys/"
                 puts = [x.split(":", 1) for x in mx.group(5).split(",") if x]
@@ -755,6 +761,8 @@ def run(ctx):
                         why = "key-material-sent-under-a-name-without-a-key-file"
                 if sorted(exported) != sorted(unhex(hx)[len(want_pfx):] for _, hx in puts):
                     why = why or "printed-names-differ-from-vault-writes"
+                if mx.group(3) == "-" and any(want_pfx + n not in [unhex(hx) for _, hx in puts] for n in listed):
+                    why = why or "command-reported-success-but-a-listed-key-was-not-written"
             if why:
                 exp_bad += 1
                 found_violation |= ctx.violation(f"C03:exp:{why}", f"{mx.group(1)} over files {[f.decode('latin1') for f in files][:8]}: {line[:300]}",
